@@ -1,4 +1,5 @@
 import Receptor.Proofs.Routing
+import Receptor.Proofs.RoutingTerm
 import Receptor.Proofs.FloodNet
 import Receptor.Model.Aging
 import Receptor.Generated.Facts
@@ -29,6 +30,27 @@ theorem lc_correct_every_schedule {g : Graph} {src : Node} {keys : List Node} {s
     (hr : Reach g (initSt src keys) s) (hq : s.queue = []) :
     (∀ v c, s.cost v = some c → IsDist g src v c) ∧ (∀ v, s.cost v = none → ∀ W, ¬ Path g src v W) :=
   lc_correct hr hq
+
+/-- **lc_terminates_every_schedule.** For every graph with finitely many key nodes the loop stops whatever the
+order of pops: "one more pop" is a well-founded relation (no infinite run exists).  Weights are natural numbers
+(zero weights and cycles included). -/
+theorem lc_terminates_every_schedule (g : Graph) (ks : List Node) (hks : ∀ v, g.isKey v = true → v ∈ ks) :
+    WellFounded (fun s' s : St => ∃ u, u ∈ s.queue ∧ s' = popRelax g s u) :=
+  lc_terminates g ks hks
+
+/-- **lc_completes.** … and therefore from every state the computation can be run to the end: a state with an
+empty queue is reachable (to which `lc_correct_every_schedule` then applies). -/
+theorem lc_completes (g : Graph) (ks : List Node) (hks : ∀ v, g.isKey v = true → v ∈ ks) (init : St) :
+    ∀ s, Reach g init s → ∃ s', Reach g init s' ∧ s'.queue = [] := by
+  intro s
+  induction s using (lc_terminates g ks hks).induction with
+  | _ s ih =>
+    intro hr
+    cases hq : s.queue with
+    | nil => exact ⟨s, hr, hq⟩
+    | cons u rest =>
+      have hu : u ∈ s.queue := by rw [hq]; simp
+      exact ih (popRelax g s u) ⟨u, hu, rfl⟩ (Reach.step hr hu)
 
 /-- the reported path cost is *the* least cost: any two least weights agree -/
 theorem isDist_unique {g : Graph} {a b : Node} {c c' : Nat} (h : IsDist g a b c) (h' : IsDist g a b c') : c = c' := by
